@@ -10,7 +10,9 @@ Tie, two lines, both against an ASan+UBSan build of /repo's CURRENT tree:
      model and judged by the executable checker ok_cut/item_in_bounds;
  (2) end-to-end: replay, report, graph, dump and info run on every truncation of every file of a
      synthetic directory (and with each file removed) under `timeout`; exit status, sanitizer report and
-     stdout are compared with the run on the copy cut at the last whole record (the model says where that is).
+     stdout are compared with the run on the copy cut at the last whole record (the model says where that is); for the
+     text files a cut inside a line must give a diagnostic, or the output of the copy cut at the last complete line,
+     or the output of the same bytes completed by a newline (the rest is rejected, ignored, or taken as the line it spells).
 """
 import json
 import os
@@ -31,27 +33,9 @@ SAN_ENV = {"ASAN_OPTIONS": "detect_leaks=0:abort_on_error=0:allocator_may_return
 EV_IDS = {100001: 24, 100003: 24, 100002: 16, 100004: 16, 100005: 16, 100006: 16, 100011: 4}
 CMDS = ["replay", "report", "graph", "dump", "info"]
 
-# Genuine defects found by this check and reported with a proposed fix (proposed-fixes/C12-*.diff).
-# A class listed in known-findings.txt is reported through ctx.known_finding; until the lead has
-# decided between a `fix:` commit and a known-findings entry the classes below are logged as
-# DEFECT-PENDING (exit status 0) - every failure OUTSIDE these exactly delimited classes is a VIOLATION.
-PENDING = {
-    "partial-args": "trace data cut inside an argument/event payload after its first completely read piece: "
-                    "read_task_ustack ignores the failed read_task_args/read_task_event and reports the record "
-                    "with an unfilled (or the previous record's) payload; consumers read past the valid bytes "
-                    "(heap-buffer-overflow in get_argspec_string / pr_args)",
-    "info-empty-value": "info cut right after the `key:` of a string line: copy_info_str reads dst[-1] of an empty string",
-    "task-exename-cut": "task.txt cut right after `exename=` of a SESS line: strrchr starts past the end of the line buffer",
-    "sym-empty-header-value": ".sym cut right after `# path name: `: check_symbol_file reads pathname[-1]",
-    "sym-empty-name": ".sym cut right after the type column of a symbol line: the empty symbol name is indexed at [len-1] "
-                      "by replay (print_graph_rstack) and compared past its end by dump (pr_args)",
-    "sym-cut-before-type": ".sym cut right after the size column of a symbol line: load_module_symbol_file steps over the "
-                           "terminating NUL and takes type/name from the stale bytes of the previous line; the bogus symbol "
-                           "inherits another function's argument spec and payloads are decoded out of bounds",
-    "partial-header-time": "trace data cut inside the 16-byte header of a record: the failed fread has already overwritten "
-                           "task->ustack, which task->rstack still points to; report and graph close the open calls with the "
-                           "(partial) timestamp of the incomplete record",
-}
+# Eight defect classes found by this check were repaired in /repo (known-findings.txt `fixed: property=C12 ...`):
+# partial-args, partial-header-time, payload-cut-time, info-empty-value, task-exename-cut, sym-empty-header-value,
+# sym-empty-name, sym-cut-before-type.  Their cuts are ordinary cuts now: a regression is a VIOLATION.
 
 
 # ---------------------------------------------------------------------------------- generator
@@ -114,6 +98,9 @@ def gen_case(rng, nrec, small=True, nested=False, minstr=0):
     names = ["main"] + ["f%d" % i for i in range(1, nfun + 1)]
     syms = [(0x1000 + 0x100 * i, 0x80, "T", n) for i, n in enumerate(names)]
     specs = [([], [])] + gen_specs(rng, nfun)
+    # every case has one function whose payloads contain string bodies at offsets that are not multiples of 8
+    # (a cut inside them leaves args.len % 8 != 0: the realignment path of read_task_args)
+    specs[1] = (["i32", "s", "s"] if rng.random() < 0.5 else ["s", "i64", "s"], ["s"])
     recs = []
     t = 1000
     stack = []
@@ -126,7 +113,7 @@ def gen_case(rng, nrec, small=True, nested=False, minstr=0):
     def entry(fi, depth):
         addr = BASE + syms[fi][0] + (0 if nested else rng.choice([0, 0, 1, 0x7f]))
         a = specs[fi][0]
-        if a and rng.random() < 0.85:
+        if a and (nested or rng.random() < 0.85):
             recs.append(dict(hdr(0, depth, addr, 1), pl=("args", gen_vals(rng, a, small, minstr))))
         else:
             recs.append(dict(hdr(0, depth, addr, 0), pl=("none",)))
@@ -134,7 +121,7 @@ def gen_case(rng, nrec, small=True, nested=False, minstr=0):
 
     def exit_(fi, depth, addr):
         r = specs[fi][1]
-        if r and rng.random() < 0.85:
+        if r and (nested or rng.random() < 0.85):
             recs.append(dict(hdr(1, depth, addr, 1), pl=("args", gen_vals(rng, r, small, minstr))))
         else:
             recs.append(dict(hdr(1, depth, addr, 0), pl=("none",)))
@@ -142,6 +129,7 @@ def gen_case(rng, nrec, small=True, nested=False, minstr=0):
     if nested:
         a0 = entry(0, 0)
         stack.append((0, a0))
+        stack.append((1, entry(1, 1)))          # the string function is called (and returns) in every directory
     while len(recs) < nrec:
         k = rng.random()
         if k < 0.12:
@@ -158,7 +146,7 @@ def gen_case(rng, nrec, small=True, nested=False, minstr=0):
                 fi = rng.randrange(1, nfun + 1)
                 stack.append((fi, entry(fi, len(stack))))
         else:
-            fi = rng.randrange(0, nfun + 1)
+            fi = 1 if not recs else rng.randrange(0, nfun + 1)
             d = rng.choice([0, 1, 2, 1022, 1023])
             if rng.random() < 0.5:
                 entry(fi, d)
@@ -392,11 +380,9 @@ def evaluate_stream(ctx, cases, results, name="stream"):
     r = coq.run_cases(ctx, name, PRE, defs, [
         ("wf", "bad_indices (fun c : tcase => let '(envl, rs, file, _) := c in "
                "wf_recs (lookup_range envl) evsize_repo rs && bytes_eqb file (enc rs)) cases 0"),
-        ("mismatch_legacy", "bad_indices (on (fun envl rs file c => agrees false envl file c)) cuts 0"),
-        ("mismatch_fixed", "bad_indices (on (fun envl rs file c => agrees true envl file c)) cuts 0"),
-        ("violations", "bad_indices (on (fun envl rs file c => okc envl rs c || in_defect_class rs c)) cuts 0"),
-        ("defect_rejected", "bad_indices (on (fun envl rs file c => okc envl rs c || negb (in_defect_class rs c))) cuts 0"),
-        ("defect_class", "bad_indices (on (fun envl rs file c => negb (in_defect_class rs c))) cuts 0"),
+        ("mismatch", "bad_indices (on (fun envl rs file c => agrees true envl file c)) cuts 0"),
+        ("violations", "bad_indices (on (fun envl rs file c => okc envl rs c)) cuts 0"),
+        ("legacy_class", "bad_indices (on (fun envl rs file c => negb (in_defect_class rs c))) cuts 0"),
     ])
     if r is None:
         return None, flat
@@ -409,23 +395,6 @@ def viol(ctx, kind, what, replay, found=True, cap=3):
     cnt[kind] = cnt.get(kind, 0) + 1
     if cnt[kind] <= cap:
         ctx.violation(what, replay, found)
-
-
-def defect(ctx, key, what, replay):
-    """a failure inside one of the exactly delimited classes of reported defects"""
-    ctx.extra.setdefault("defect_classes_reproduced", {})
-    first = key not in ctx.extra["defect_classes_reproduced"]
-    ctx.extra["defect_classes_reproduced"][key] = ctx.extra["defect_classes_reproduced"].get(key, 0) + 1
-    if not first:
-        return
-    if ctx.kf.listed(ctx.prop, key):
-        ctx.known_finding(key, what, True, replay)
-    elif key in PENDING:
-        print("DEFECT-PENDING: property=%s key=%s %s (proposed-fixes/, awaiting fix: commit or known-findings entry)"
-              % (ctx.prop, key, PENDING[key]), flush=True)
-        ctx.log("defect class %s reproduced: %s" % (key, what))
-    else:
-        ctx.violation("unlisted defect (%s): %s" % (key, what), replay, True)
 
 
 def stream_tie(ctx, objdir, harness):
@@ -467,33 +436,23 @@ def verdict_stream(ctx, cases, name="stream"):
         return
     if res["wf"]:
         ctx.broken("C12 generator produced a case the model calls ill-formed or encodes differently (case %s)" % res["wf"][:3])
-    ctx.extra["stream_cuts"] = len(flat)
-    ctx.extra["stream_cuts_in_defect_class"] = len(res["defect_class"])
-    for i in res["violations"][:3]:
+    ctx.extra["stream_cuts"] = ctx.extra.get("stream_cuts", 0) + len(flat)
+    ctx.extra["stream_cuts_in_former_defect_class"] = ctx.extra.get("stream_cuts_in_former_defect_class", 0) + len(res["legacy_class"])
+    for i in res["violations"]:
         ci, n = flat[i]
         case, full, r = cases[ci]
-        ctx.violation("C12 violated by the record reader: on a file cut at byte %d it reports something other than the "
-                      "completely present records (or ends other than by end-of-data / diagnostic)" % n,
-                      {"mode": "stream", "case": case_json(case, full, n, r[n])}, True)
-    ml, mf = set(res["mismatch_legacy"]), set(res["mismatch_fixed"])
-    if res["defect_rejected"]:
-        ci, n = flat[res["defect_rejected"][0]]
+        viol(ctx, "stream-checker", "C12 violated by the record reader: on a file cut at byte %d it reports something other than the "
+             "completely present records with their complete payloads (or ends other than by end-of-data / diagnostic)" % n,
+             {"mode": "stream", "case": case_json(case, full, n, r[n])}, True)
+    mm = res["mismatch"]
+    ctx.extra["disagreements_checked"] = ctx.extra.get("disagreements_checked", 0) + len(mm)
+    if mm and not res["violations"]:
+        ci, n = flat[mm[0]]
         case, full, r = cases[ci]
-        defect(ctx, "partial-args", "cut %d of a %d-byte task file: %d record(s) reported, payload of the last one has %s valid bytes"
-               % (n, len(full), len(r[n][0]), r[n][0][-1][5] if r[n][0] else "-"),
-               {"mode": "stream", "case": case_json(case, full, n, r[n])})
-    which = "as-is" if not ml else ("repaired" if not mf else None)
-    ctx.extra["reader_matches_model"] = which or "neither"
-    if which is None and not res["violations"]:
-        i = sorted(ml & mf or ml)[0]
-        ci, n = flat[i]
-        case, full, r = cases[ci]
-        ctx.violation("model and implementation of the record reader disagree on %d cut(s) (as-is model: %d, repaired model: %d); "
-                      "the property checker accepts the implementation on every explored cut outside the reported defect class"
-                      % (len(ml & mf or ml), len(ml), len(mf)),
-                      {"correspondence": "C12.Model.read_stream vs utils/fstack.c read_task_ustack",
-                       "mode": "stream", "first_disagreement": case_json(case, full, n, r[n])}, False)
-    ctx.extra["disagreements_checked"] = len(ml & mf)
+        viol(ctx, "stream-mismatch", "model and implementation of the record reader disagree on %d cut(s); the property checker "
+             "accepts the implementation on every explored cut" % len(mm),
+             {"correspondence": "C12.Model.read_stream true vs utils/fstack.c read_task_ustack",
+              "mode": "stream", "first_disagreement": case_json(case, full, n, r[n])}, False, cap=1)
 
 
 def classify_cut(spans, n):
@@ -556,54 +515,33 @@ def run_cmds(uft, root, files, env=None):
     return res
 
 
-TEXT_DEFECTS = [
-    # (key, file predicate, regexp on the unterminated last line, function that must be in the report)
-    ("info-empty-value", lambda f: f == "info", re.compile(rb"^[a-z_]+:(?:[a-z_]+=)?$"), "copy_info_str"),
-    ("task-exename-cut", lambda f: f == "task.txt", re.compile(rb"^(SESS|DLOP) .*(exename|libname)=$"), "read_task_txt_file"),
-    ("sym-empty-header-value", lambda f: f.endswith(".sym"), re.compile(rb"^# (path name|build-id): $"), "check_symbol_file"),
-    ("sym-empty-name", lambda f: f.endswith(".sym"), re.compile(rb"^[0-9a-f]{16} [0-9a-f]{8} . $"), None),
-    ("sym-cut-before-type", lambda f: f.endswith(".sym"), re.compile(rb"^[0-9a-f]{16} [0-9a-f]{8} $"), None),
-]
-
-
-def text_defect_class(fname, content, err):
-    body = content[40:] if fname == "info" else content
-    last = body.rsplit(b"\n", 1)[-1]
-    for key, pred, rx, fn in TEXT_DEFECTS:
-        if pred(fname) and rx.match(last) and (fn is None or fn in err):
-            return key
-    return None
-
-
 def e2e(ctx, objdir):
     uft = os.path.join(objdir, "uftrace")
     rng = ctx.rng
     ndirs = ctx.n(1, 3)
     for di in range(ndirs):
-        case = gen_case(rng, ctx.n(6, 14), small=True, nested=True, minstr=3)
+        case = gen_case(rng, ctx.n(10, 16), small=True, nested=True, minstr=3)
         root = os.path.join(ctx.scratch, "e2e%d" % di)
         os.makedirs(root)
         write_dir(case, os.path.join(root, "src"))
         files = {n: open(os.path.join(root, "src", n), "rb").read() for n in sorted(os.listdir(os.path.join(root, "src")))}
         full = files["100.dat"]
-        # the model decides, for every cut of the task file: length of the copy cut at the last whole record,
-        # defect class, and whether the reader ends by the diagnostic exit
+        # the model decides, for every cut of the task file, the length of the copy cut at the last whole record
         defs = ("Definition envl : list (N * N * (list aspec * list aspec)) := %s.\nDefinition rs : list rec := [%s].\n" % (coq_envl(case), ";\n ".join(coq_rec(r) for r in case["recs"])))
         r = coq.run_cases(ctx, "e2e%d" % di, PRE, defs, [
             ("ok", "wf_recs (lookup_range envl) evsize_repo rs && bytes_eqb (enc rs) %s" % coq_bytes(full)),
             ("whole", "map (fun n => length (enc (whole_prefix rs n))) (seq 0 (S (length (enc rs))))"),
-            ("defect", "bad_indices (fun n => negb (defect_cut false rs n)) (seq 0 (S (length (enc rs)))) 0"),
-            ("abort", "bad_indices (fun n => match snd (expected false (lookup_range envl) a0 rs n) with EMissingArg => false | _ => true end) "
-                      "(seq 0 (S (length (enc rs)))) 0"),
+            ("model_ok", "forallb (fun n => result_eqb (model_on true envl (enc rs) n) (map full_item (whole_prefix rs n), EEof)) "
+                         "(seq 0 (S (length (enc rs))))"),
         ])
         if r is None:
             return
         if r["ok"] != "true":
             ctx.broken("C12 e2e: generated directory is not what the model's encoder writes")
             return
+        if r["model_ok"] != "true":
+            ctx.broken("C12 e2e: the model no longer reports exactly the whole records on every cut of the generated task file")
         whole = coq.parse_nat_list(r["whole"])
-        in_defect = set(coq.parse_nat_list(r["defect"]))
-        aborts = set(coq.parse_nat_list(r["abort"]))
         jobs = []
         for fname, content in files.items():
             if fname == "100.dat" or (ctx.thorough() and len(content) <= 2000):
@@ -643,9 +581,37 @@ def e2e(ctx, objdir):
             fs["100.dat"] = full[:n]
             return n, run_cmds(uft, os.path.join(root, "c-%d" % n), fs)
 
+        def line_start(fname, n):
+            """length of the copy cut at the last complete line (info: never below its 40-byte binary header)"""
+            c = files[fname][:n]
+            k = c.rfind(b"\n") + 1
+            return max(k, 40) if fname == "info" else k
+
+        def unterminated(fname, n):
+            if n < 0 or fname == "100.dat" or (fname == "info" and n <= 40):
+                return False
+            return line_start(fname, n) != n
+
+        text_canon_needed = sorted(set((f, line_start(f, n)) for f, n in jobs if unterminated(f, n)))
+
+        def run_text_variant(key):
+            fname, n, nl = key
+            fs = dict(files)
+            fs[fname] = files[fname][:n] + (b"\n" if nl else b"")
+            return key, run_cmds(uft, os.path.join(root, "t-%s-%d-%d" % (fname.replace("/", "_"), n, nl)), fs)
+
         with ThreadPoolExecutor(16) as ex:
             canon = dict(ex.map(run_canon, canon_needed))
             results = list(ex.map(run_job, jobs))
+            tcanon = dict(ex.map(run_text_variant, [(f, k, 0) for f, k in text_canon_needed]))
+            # the same text followed by a newline is run only where the cut copy neither fails nor equals the canonical copy
+            need_nl = []
+            for (fname, n), res in results:
+                if res is not None and unterminated(fname, n):
+                    ref = tcanon[(fname, line_start(fname, n), 0)]
+                    if any(res[c][0] == 0 and (res[c][0], res[c][1]) != (ref[c][0], ref[c][1]) for c in CMDS):
+                        need_nl.append((fname, n, 1))
+            tnl = dict(ex.map(run_text_variant, need_nl))
         spans, _ = record_spans(case)
         partial_accepted = 0
         for (fname, n), res in results:
@@ -683,16 +649,8 @@ def e2e(ctx, objdir):
                     viol(ctx, "e2e-signal", "uftrace %s was killed by a signal (rc=%d) on a directory whose %s is cut at byte %d" % (c, rc, fname, n), rep, True)
                     continue
                 if san:
-                    key = None
-                    if fname == "100.dat" and n in in_defect:
-                        key = "partial-args"
-                    elif n >= 0 and fname != "100.dat":
-                        key = text_defect_class(fname, content, err)
-                    if key:
-                        defect(ctx, key, "uftrace %s: sanitizer report with %s cut at byte %d" % (c, fname, n), rep)
-                    else:
-                        viol(ctx, "e2e-sanitizer:" + fname, "uftrace %s: out-of-bounds / undefined access (sanitizer report) on a directory whose %s is %s"
-                                      % (c, fname, "missing" if n < 0 else "cut at byte %d" % n), rep, True)
+                    viol(ctx, "e2e-sanitizer:" + fname, "uftrace %s: out-of-bounds / undefined access (sanitizer report) on a directory whose %s is %s"
+                         % (c, fname, "missing" if n < 0 else "cut at byte %d" % n), rep, True)
                     continue
                 if fname == "100.dat" and n > 0 and whole[n] != n:
                     wl = whole[n]
@@ -701,24 +659,32 @@ def e2e(ctx, objdir):
                     rep["expected_rc"] = ref[0]
                     if (rc, out) == (ref[0], ref[1]):
                         pass                      # exactly as for the copy cut at the last whole record
-                    elif n in in_defect:
-                        defect(ctx, "partial-args", "uftrace %s with the task file cut at byte %d prints something else than on "
-                               "the copy cut at byte %d" % (c, n, wl), rep)
-                    elif n in aborts and c != "info" and rc != 0 and err.strip() and ref[1].startswith(out):
-                        pass                      # diagnostic exit ("record missing argument info"), nothing extra printed
-                    elif c in ("report", "graph") and rc == ref[0] == 0 and "in:16-byte-header" in classify_cut(spans, n):
-                        defect(ctx, "partial-header-time", "uftrace %s with the task file cut at byte %d (inside a record "
-                               "header) prints other totals than on the copy cut at byte %d" % (c, n, wl), rep)
+                    elif c != "info" and rc != 0 and err.strip() and ref[1].startswith(out):
+                        ctx.tag("e2e:diagnostic-exit")      # allowed by the property text; the repaired reader has none
                     else:
                         viol(ctx, "e2e-output:" + c, "uftrace %s on a task file cut at byte %d neither prints what it prints on the "
                              "copy cut at the last whole record (byte %d) nor stops with a diagnostic and a prefix of that output"
                              % (c, n, wl), rep)
-                elif fname != "100.dat" and n >= 0 and rc == 0:
-                    body = content[40:] if fname == "info" else content
-                    if body and not body.endswith(b"\n"):
-                        partial_accepted += 1
-        ctx.extra["e2e_text_cuts_with_unterminated_last_line_accepted"] = \
-            ctx.extra.get("e2e_text_cuts_with_unterminated_last_line_accepted", 0) + partial_accepted
+                elif unterminated(fname, n):
+                    k = line_start(fname, n)
+                    ref = tcanon[(fname, k, 0)][c]
+                    if rc != 0 and err.strip():
+                        ctx.tag("e2e:text-rest-rejected")            # diagnostic
+                    elif (rc, out) == (ref[0], ref[1]):
+                        ctx.tag("e2e:text-rest-ignored-or-invisible")   # as for the copy cut at the last complete line
+                    else:
+                        alt = tnl.get((fname, n, 1), {}).get(c)
+                        if alt is not None and (rc, out) == (alt[0], alt[1]):
+                            partial_accepted += 1                      # treated exactly like the same text + newline
+                        else:
+                            rep["expected_stdout"] = ref[1][-600:]
+                            rep["expected_rc"] = ref[0]
+                            rep["stdout_with_newline_appended"] = alt[1][-600:] if alt else None
+                            viol(ctx, "e2e-text:" + fname, "uftrace %s with %s cut at byte %d (inside a line) prints neither what it prints "
+                                 "on the copy cut at the last complete line (byte %d) nor what it prints when the unterminated rest "
+                                 "is completed by a newline, and gives no diagnostic" % (c, fname, n, k), rep)
+        ctx.extra["e2e_text_runs_unterminated_rest_taken_as_a_line"] = \
+            ctx.extra.get("e2e_text_runs_unterminated_rest_taken_as_a_line", 0) + partial_accepted
         shutil.rmtree(root, ignore_errors=True)
 
 
@@ -740,8 +706,8 @@ def common_meta(ctx):
                 "non-empty file (e2e)")
     ctx.trusted = [
         "Coq 8.16.1 kernel incl. vm_compute; no axioms (Print Assumptions: closed under the global context)",
-        "hand-written model coq/theories/C12/Model.v of utils/fstack.c (__read_task_ustack, read_task_arg(s), "
-        "read_task_event, read_task_ustack) and of stdio fread/fseek on a regular file",
+        "hand-written model coq/theories/C12/Model.v (read_stream true) of utils/fstack.c (__read_task_ustack, read_task_arg(s), "
+        "read_task_event, read_task_ustack) and of stdio fread/fseek/getline on a regular file",
         "generated constants Gen/Consts.v (record bit-field layout, RECORD_MAGIC) and Gen/C12Consts.v (event payload sizes "
         "taken from the text of read_task_event + sizeof of the compiled structs)",
         "harness/c/c12_harness.c + props/c12.py (parsing of harness/uftrace output, lossless prefix compression of item lists, "
@@ -753,8 +719,10 @@ def common_meta(ctx):
         "little-endian 64-bit data read on the same kind of host (no byte/bit swap)",
         "EVENT_ID_WATCH_VAR payloads and the old `task` binary file are not modelled (not generated)",
         "memory safety of the C text itself is monitored by the sanitizer build on the explored cuts, not proved",
-        "text files (task.txt, info, .map, .sym): an unterminated last line is handed to the line parsers as it is "
-        "(observed: accepted when it still scans) - only crash/hang/out-of-bounds are judged there",
+        "text files (task.txt, info, .map, .sym): an unterminated last line is handed to the line parsers as it is; judged: "
+        "no crash/hang/out-of-bounds, and the run equals the run on the copy cut at the last complete line, or on the same "
+        "bytes + newline, or ends with a diagnostic (a rest that still scans, e.g. a shortened number or name, is taken as "
+        "the line it spells - recorded as found)",
     ]
 
 
